@@ -99,6 +99,31 @@ def run_with_limit(fn, limit):
     return box.get('value')
 
 
+def reproduced(fn, *args, **kw):
+    """Run a case that uses real sockets, threads and time.  A Violation counts only if the very same case raises the
+    very same violation (key) three times in a row - what the library does with a given case is deterministic, what a
+    loaded machine does to time-outs is not.  Otherwise: Inconclusive."""
+    from .common import Violation
+    first = None
+    for attempt in range(3):
+        try:
+            return fn(*args, **kw)
+        except Violation as v:
+            if first is None:
+                first = v
+            elif v.key != first.key:
+                raise Inconclusive('violation did not reproduce (%s, then %s)' % (first.key, v.key))
+        except Inconclusive:
+            if first is None:
+                raise
+            raise Inconclusive('violation did not reproduce (%s, then a time-out)' % first.key)
+        else:
+            break
+    if first is not None and attempt == 2:
+        raise first
+    raise Inconclusive('violation did not reproduce (%s)' % (first.key if first else '?'))
+
+
 def wait_until(pred, limit=5.0, step=0.02):
     t0 = time.time()
     while time.time() - t0 < limit:
